@@ -379,7 +379,7 @@ def shard(ctx: runner.Ctx) -> None:
 def _shard(ctx: runner.Ctx) -> None:
     from hypothesis import strategies as st
 
-    n = ctx.n(12_000, 2_000_000)
+    n = ctx.n(12_000, 600_000)
     if ctx.quick and ctx.shard == 0:
         n //= 3  # shard 0 also runs the corner cases and the atheris smoke stage
     pos_total = [0, 0]
@@ -427,6 +427,9 @@ def _shard(ctx: runner.Ctx) -> None:
             _record(ctx, "fv", pieces, strings)
 
     runner.hyp_run(strategy, one, n, ctx.seed)
+    import time
+
+    ctx.notes["cpu_s_exploration"] = round(time.process_time(), 1)
     ctx.notes["positives_sampled"] = pos_total[0]
     ctx.notes["positives_matching"] = pos_total[1]
 
@@ -441,7 +444,7 @@ def _shard(ctx: runner.Ctx) -> None:
     # coverage-guided stage
     runs = 0
     if ctx.tier == "thorough":
-        runs = ctx.n(0, 1_600_000)
+        runs = ctx.n(0, 640_000)
     elif ctx.shard == 0:
         runs = 250
     if runs > 0:
@@ -582,7 +585,7 @@ def _atheris_child(out_path: str) -> None:
             stats["classes"][c] = stats["classes"].get(c, 0) + 1
         if info["outcome"] == "accepted" and (info["quantifier"] or info["set"]):
             stats["nontrivial"].add(runner.jhash([regen.enc(s)]))
-        if stats["inputs"] >= 100:
+        if stats["inputs"] >= 25:
             # libFuzzer leaves with _exit(): no atexit, so the counters are written as deltas
             fh.write(json.dumps({"kind": "stats", "inputs": stats["inputs"], "classes": stats["classes"],
                                  "nontrivial": sorted(stats["nontrivial"])}) + "\n")
